@@ -20,6 +20,7 @@ use jsonrpsee::server::{
 	ConnectionGuard, HttpRequest, HttpResponse, PingConfig, RpcModule, Server, ServerConfig, ServerHandle, SubscriptionMessage,
 	serve_with_graceful_shutdown, stop_channel,
 };
+use jsonrpsee::server::middleware::rpc::RpcServiceBuilder;
 use jsonrpsee::Extensions;
 use tokio::io::{AsyncReadExt, AsyncWriteExt};
 use tokio::net::{TcpListener, TcpStream};
@@ -226,6 +227,14 @@ pub enum Assembly {
 	/// as `Tower`, but the limit comes from `TowerServiceBuilder::max_connections(limit)` and the
 	/// `ServerConfig` carries a different (large) value
 	TowerSet,
+	/// as `TowerSet`, with further builder setters applied AFTER `max_connections(limit)`:
+	/// `.set_rpc_middleware(..).set_http_middleware(..).connection_id(..)` — each of them rebuilds
+	/// the builder and has to carry the guard over
+	TowerMw,
+	/// the limit is in the `ServerConfig`; the shared builder has no HTTP middleware, and
+	/// `.set_rpc_middleware(..).set_http_middleware(..)` is applied to a CLONE of it for every
+	/// accepted connection — all those per-connection builders must still share one guard
+	TowerClone,
 }
 
 impl Assembly {
@@ -234,6 +243,8 @@ impl Assembly {
 			Assembly::Server => "server",
 			Assembly::Tower => "tower",
 			Assembly::TowerSet => "towerset",
+			Assembly::TowerMw => "towermw",
+			Assembly::TowerClone => "towerclone",
 		}
 	}
 	pub fn parse(s: &str) -> Option<Self> {
@@ -241,6 +252,8 @@ impl Assembly {
 			"server" => Some(Assembly::Server),
 			"tower" => Some(Assembly::Tower),
 			"towerset" => Some(Assembly::TowerSet),
+			"towermw" => Some(Assembly::TowerMw),
+			"towerclone" => Some(Assembly::TowerClone),
 			_ => None,
 		}
 	}
@@ -281,7 +294,7 @@ pub async fn start_env(cfg: &EnvCfg) -> Env {
 			(t ^ ((std::process::id() as u64) << 40) ^ n.wrapping_mul(0x9E3779B97F4A7C15)) & ((1u64 << 53) - 1)
 		},
 	});
-	let cfg_max = if cfg.assembly == Assembly::TowerSet { 77 } else { cfg.max };
+	let cfg_max = if matches!(cfg.assembly, Assembly::TowerSet | Assembly::TowerMw) { 77 } else { cfg.max };
 	let mut b = ServerConfig::builder().max_connections(cfg_max).set_message_buffer_capacity(cfg.buffer);
 	if !cfg.http {
 		b = b.ws_only();
@@ -297,22 +310,13 @@ pub async fn start_env(cfg: &EnvCfg) -> Env {
 	let scfg = b.build();
 	let methods = module(shared.clone());
 	let http_mw = tower::ServiceBuilder::new().layer(HoldLayer(shared.clone()));
-	let builder = Server::builder().set_config(scfg).set_http_middleware(http_mw);
-	let (addr, handle) = match cfg.assembly {
-		Assembly::Server => {
-			let server = builder.build("127.0.0.1:0").await.expect("bind loopback");
-			let addr = server.local_addr().unwrap();
-			(addr, server.start(methods))
-		}
-		Assembly::Tower | Assembly::TowerSet => {
-			let mut svc_builder = builder.to_service_builder();
-			if cfg.assembly == Assembly::TowerSet {
-				svc_builder = svc_builder.max_connections(cfg.max);
-			}
+	// own accept loop of the tower-service assemblies; `$make` yields the service of one connection
+	macro_rules! accept_loop {
+		($make:expr) => {{
 			let listener = TcpListener::bind("127.0.0.1:0").await.expect("bind loopback");
 			let addr = listener.local_addr().unwrap();
 			let (stop_handle, server_handle) = stop_channel();
-			let methods: jsonrpsee::server::Methods = methods.into();
+			let make = $make;
 			tokio::spawn(async move {
 				loop {
 					let sock = tokio::select! {
@@ -320,11 +324,44 @@ pub async fn start_env(cfg: &EnvCfg) -> Env {
 						_ = stop_handle.clone().shutdown() => break,
 					};
 					let _ = sock.set_nodelay(true);
-					let svc = svc_builder.clone().build(methods.clone(), stop_handle.clone());
+					let svc = make(stop_handle.clone());
 					tokio::spawn(serve_with_graceful_shutdown(sock, svc, stop_handle.clone().shutdown()));
 				}
 			});
 			(addr, server_handle)
+		}};
+	}
+	let (addr, handle) = match cfg.assembly {
+		Assembly::Server => {
+			let server = Server::builder().set_config(scfg).set_http_middleware(http_mw).build("127.0.0.1:0").await.expect("bind loopback");
+			let addr = server.local_addr().unwrap();
+			(addr, server.start(methods))
+		}
+		Assembly::Tower | Assembly::TowerSet => {
+			let mut svc_builder = Server::builder().set_config(scfg).set_http_middleware(http_mw).to_service_builder();
+			if cfg.assembly == Assembly::TowerSet {
+				svc_builder = svc_builder.max_connections(cfg.max);
+			}
+			let methods: jsonrpsee::server::Methods = methods.into();
+			accept_loop!(move |sh: jsonrpsee::server::StopHandle| svc_builder.clone().build(methods.clone(), sh))
+		}
+		Assembly::TowerMw => {
+			let svc_builder = Server::builder()
+				.set_config(scfg)
+				.to_service_builder()
+				.max_connections(cfg.max)
+				.set_rpc_middleware(RpcServiceBuilder::new())
+				.set_http_middleware(http_mw)
+				.connection_id(1000);
+			let methods: jsonrpsee::server::Methods = methods.into();
+			accept_loop!(move |sh: jsonrpsee::server::StopHandle| svc_builder.clone().build(methods.clone(), sh))
+		}
+		Assembly::TowerClone => {
+			let shared_builder = Server::builder().set_config(scfg).to_service_builder();
+			let methods: jsonrpsee::server::Methods = methods.into();
+			accept_loop!(move |sh: jsonrpsee::server::StopHandle| {
+				shared_builder.clone().set_rpc_middleware(RpcServiceBuilder::new()).set_http_middleware(http_mw.clone()).build(methods.clone(), sh)
+			})
 		}
 	};
 	Env { addr, handle: Some(handle), shared, ev_rx, backlog: VecDeque::new(), guard: None, max: cfg.max }
